@@ -3,6 +3,8 @@ package sim
 import (
 	"fmt"
 	"strings"
+
+	"github.com/onheap/eval"
 )
 
 // C06 — Compile and evaluation are total (evaluation half).
@@ -165,6 +167,9 @@ func (propC06) Gen(r *Rng, tier string) *World {
 		j++
 	}
 	w.Extra = map[string]string{"events": ev[i] + "," + ev[j]}
+	if r.P(0.3) {
+		w.Extra["real"] = "1"
+	}
 	nb := r.Range(2, 4)
 	for i := 0; i < nb; i++ {
 		p := Plan{Bind: g.Binding()}
@@ -274,6 +279,31 @@ func (propC06) Run(w *World, st *Stats) *Violation {
 					st.ProbeN("loop_events", len(o.Events))
 				}
 				return nil, o.Env.N
+			}
+			// the library's own fetchers (NewCtxFromVars), with bindings that may
+			// leave referenced variables out: an error is fine, a panic is not
+			if w.Extra["real"] == "1" {
+				for i := range w.Calls {
+					vals := map[string]interface{}{}
+					for n, v := range w.Calls[i].Bind {
+						if v.T != "nil" {
+							vals[n] = v.Go()
+						}
+					}
+					for _, kind := range c06kinds {
+						env := NewEnv(ops, &Plan{Kind: kind})
+						c.Host.CompileEnv = env
+						o := c.RunCtx(eval.NewCtxFromVars(c.Conf, vals), env, kind)
+						c.Host.CompileEnv = nil
+						st.Evals++
+						if o.Panic != nil {
+							rw := narrowed(cw, &w.Calls[i])
+							rw.Extra = map[string]string{"real": "1"}
+							return viol(rw, "panic", "%s with the library's own fetcher (NewCtxFromVars) panicked: %v\n%s", kind, o.Panic, trimStack(o.Stack))
+						}
+					}
+				}
+				st.Probe("real_fetcher_worlds")
 			}
 			for i := range w.Calls {
 				for _, kind := range c06kinds {
